@@ -132,7 +132,7 @@ impl<'s, M: Matcher, S: Sink> SliceByLine<'s, M, S> {
     }
 
     fn byte_count(&mut self) -> u64 {
-        match self.core.binary_byte_offset() {
+        match self.core.binary_quit_offset() {
             Some(offset) if offset < self.core.pos() as u64 => offset,
             _ => self.core.pos() as u64,
         }
@@ -348,7 +348,7 @@ impl<'s, M: Matcher, S: Sink> MultiLine<'s, M, S> {
     }
 
     fn byte_count(&mut self) -> u64 {
-        match self.core.binary_byte_offset() {
+        match self.core.binary_quit_offset() {
             Some(offset) if offset < self.core.pos() as u64 => offset,
             _ => self.core.pos() as u64,
         }
